@@ -33,7 +33,7 @@ def numleaf():
         lambda v: st.sampled_from([("num", v), ("num", v), ("num", -v)]))
 
 
-SYMS = ["k0", "k1", "k2", "k3", "k4", "k5", "lab0", "lab1"]
+SYMS = ["k0", "k1", "k2", "k3", "k4", "k5", "lab0", "lab1", "k6", "k7", "k6", "k7"]
 
 
 def leaf():
@@ -115,6 +115,8 @@ def program(draw):
         "k0": draw(st.integers(0, 64)), "k1": draw(st.integers(-64, 64)), "k2": draw(st.sampled_from([0o177777, 0o100000, 65536, 1 << 31, -(1 << 31)])),
         "k3": draw(st.integers(-M32, M32)), "k4": draw(st.integers(0, 40)), "k5": draw(st.integers(-8, 8)),
     }
+    consts["k6"] = draw(st.integers(-9, 9))   # k6 = lab1 + that: an address-valued constant (a forward reference when defined first)
+    consts["k7"] = draw(st.integers(-9, 9))   # k7 = lab0 + that
     where = {k: draw(st.booleans()) for k in consts}          # defined before use?
     chain = draw(st.booleans())                                 # k0 spelled through k1 (k0 = k1 + delta)
     base = draw(st.sampled_from([None, None, 0, 0o40000, 0o157776, 0o2]))
@@ -154,6 +156,8 @@ def build(case):
         pre.append({"k": "link", "e": ("num", base)})
     for k, v in consts.items():
         e = ("num", v)
+        if k in ("k6", "k7"):
+            e = ("bin", "+" if v >= 0 else "-", ("sym", "lab1" if k == "k6" else "lab0"), ("num", abs(v)))
         if k == "k0" and case["chain"]:
             e = ("bin", "+", ("sym", "k1"), ("num", v - consts["k1"]))
         (pre if case["where"][k] else post).append({"k": "assign", "name": k, "e": e})
@@ -167,6 +171,8 @@ def build(case):
     syms = dict(consts)
     syms["lab0"] = B
     syms["lab1"] = addr
+    syms["k6"] = addr + consts["k6"]
+    syms["k7"] = B + consts["k7"]
     image = b""
     errors = set()
     info = []
